@@ -148,6 +148,12 @@ def translate():
                 raise Unsupported("flush before the loop")
             finals.append(bufs[src(st.value.func.value)][0])
             continue
+        if isinstance(st, ast.For) and loop is None and isinstance(st.target, ast.Name) and not st.orelse \
+                and cs_var and src(st.iter) == f"range(start, stop, {cs_var})":
+            # for c in range(start, stop, cs): the same loop, the advance c += cs done by range
+            loop = st
+            cur = st.target.id
+            continue
         raise Unsupported("statement: " + src(st)[:120])
     if bed is None or root is None or loop is None or cs_var is None or cur is None:
         raise Unsupported("missing reader / store / loop / chunk size / loop variable")
@@ -155,12 +161,20 @@ def translate():
         raise Unsupported("buffers: " + str(sorted(bufs.values())))
 
     # ---- the while loop -------------------------------------------------------------------
-    if src(loop.test) != f"{cur} < stop":
-        raise Unsupported("loop test: " + src(loop.test))
     lb = strip(loop.body)
-    if len(lb) != 4:
-        raise Unsupported("loop body has %d statements" % len(lb))
-    s_stop, s_read, s_for, s_adv = lb
+    if isinstance(loop, ast.While):
+        if src(loop.test) != f"{cur} < stop":
+            raise Unsupported("loop test: " + src(loop.test))
+        if len(lb) != 4:
+            raise Unsupported("loop body has %d statements" % len(lb))
+        s_stop, s_read, s_for, s_adv = lb
+        advance = "e"
+    else:
+        if len(lb) != 3:
+            raise Unsupported("loop body has %d statements" % len(lb))
+        s_stop, s_read, s_for = lb
+        s_adv = None
+        advance = "(c + cs)"
     if not (isinstance(s_stop, ast.Assign) and isinstance(s_stop.targets[0], ast.Name)):
         raise Unsupported("loop: " + src(s_stop))
     end = s_stop.targets[0].id
@@ -170,7 +184,7 @@ def translate():
             and src(s_read.value) == f"{bed}.read(slice({cur}, {end}), dtype=np.int8).T"):
         raise Unsupported("bed read: " + src(s_read)[:120])
     chunk = s_read.targets[0].id
-    if not (isinstance(s_adv, ast.Assign) and src(s_adv) == f"{cur} = {end}"):
+    if s_adv is not None and not (isinstance(s_adv, ast.Assign) and src(s_adv) == f"{cur} = {end}"):
         raise Unsupported("loop advance: " + src(s_adv))
     if not (isinstance(s_for, ast.For) and isinstance(s_for.target, ast.Name) and src(s_for.iter) == chunk and not s_for.orelse):
         raise Unsupported("row loop: " + src(s_for)[:80])
@@ -260,11 +274,11 @@ Definition gen_call (v : Z) : Z * Z :=
 (* assert start % variants_chunk_size == 0 is present *)
 Definition gen_requires_aligned_start : bool := {'true' if aligned else 'false'}.
 
-(* while c < stop: e = min(c + cs, stop); read rows [c, e); c = e *)
+(* while c < stop: e = min(c + cs, stop); read rows [c, e); c = e     (or: for c in range(start, stop, cs), advancing by cs) *)
 Fixpoint gen_slice_reads (fuel : nat) (c stop cs : Z) : list (Z * Z) :=
   match fuel with
   | O => []
-  | S fuel' => if c <? stop then let e := Z.min (c + cs) stop in (c, e) :: gen_slice_reads fuel' e stop cs else []
+  | S fuel' => if c <? stop then let e := Z.min (c + cs) stop in (c, e) :: gen_slice_reads fuel' {advance} stop cs else []
   end.
 
 (* the statements executed for every row read, in order (every buffer is created at offset `start`) *)
